@@ -31,6 +31,10 @@ def dae_problem(kind):
     if kind == "scalar":
         return (nDAE(csc_array(np.array([[1.0]])), lambda t, y, p: -y, lambda t, y, p: csc_array(np.array([[-1.0]])), {}),
                 np.array([1.0]))
+    if kind == "mild":
+        # mildly nonlinear and non-autonomous: Newton converges for steps larger than 1 as well
+        return (nDAE(csc_array(np.array([[1.0]])), lambda t, y, p: -y + 0.3 * np.sin(y) + np.cos(0.3 * t),
+                     lambda t, y, p: csc_array(np.array([[-1.0 + 0.3 * np.cos(y[0])]])), {}), np.array([1.0]))
     if kind == "scaled":
         # the same nonlinear problem in 'SI units': states of magnitude 1e5
         S = 1e5
@@ -43,6 +47,15 @@ def dae_problem(kind):
     F = lambda t, y, p: np.array([-y[0] ** 3 + y[1] + np.cos(t), y[1] - np.sin(y[0])])
     J = lambda t, y, p: csc_array(np.array([[-3 * y[0] ** 2, 1.0], [-np.cos(y[0]), 1.0]]))
     return nDAE(M, F, J, {}), np.array([0.5, np.sin(0.5)])
+
+
+def fdae_problem_t(h):
+    """a difference equation with explicit time dependence: x - x_prev + h*x^3 - h*cos(t) = 0 (t is the NEW time level)"""
+    from scipy.sparse import csc_array
+    from Solverz.num_api.num_eqn import nFDAE
+    F = lambda t, y, p, y0: y - y0 + h * y ** 3 - h * np.cos(t)
+    J = lambda t, y, p, y0: csc_array(np.diag(1 + 3 * h * y ** 2))
+    return nFDAE(F, J, {}, 1), np.array([1.0])
 
 
 def fdae_problem(h):
@@ -173,19 +186,40 @@ def run(rep, tier, seed):
                       if not np.max(np.abs(r)) < tol:
                           fails.append((dict(case, step=k), f"{name}: step {k} violates its discrete equation: residual {np.max(np.abs(r)):.3g} >= ite_tol {tol:g}"))
                           break
-              fd, u0 = fdae_problem(h)
-              case = dict(solver="fdae_solver", problem="x - x_prev + h x^3", h=h, ite_tol=tol)
-              try:
-                  sol = quiet(fdae_solver, fd, [0.0, 10 * h], u0, Opt(step_size=h, ite_tol=tol))
-                  T, Y = np.asarray(sol.T), np.asarray(sol.Y)
-                  for k in range(len(T) - 1):
-                      nstepeq += 1
-                      r = fd.F(T[k + 1], Y[k + 1], {}, Y[k])
-                      if not np.max(np.abs(r)) < tol:
-                          fails.append((dict(case, step=k), f"fdae_solver: step {k} violates the model's difference equation: residual {np.max(np.abs(r)):.3g} >= ite_tol {tol:g}"))
-                          break
-              except Exception as ex:  # noqa
-                  fails.append((case, f"fdae_solver: raised {type(ex).__name__}: {ex}"))
+              for fdp, fdname, span in ((fdae_problem, "x - x_prev + h x^3", 10.0), (fdae_problem_t, "x - x_prev + h x^3 - h cos(t), span 10.3 h", 10.3)):
+                fd, u0 = fdp(h)
+                case = dict(solver="fdae_solver", problem=fdname, h=h, ite_tol=tol)
+                try:
+                    sol = quiet(fdae_solver, fd, [0.0, span * h], u0, Opt(step_size=h, ite_tol=tol))
+                    T, Y = np.asarray(sol.T), np.asarray(sol.Y)
+                    for k in range(len(T) - 1):
+                        nstepeq += 1
+                        r = fd.F(T[k + 1], Y[k + 1], {}, Y[k])
+                        if not np.max(np.abs(r)) < tol:
+                            fails.append((dict(case, step=k), f"fdae_solver: step {k} violates the model's difference equation: residual {np.max(np.abs(r)):.3g} >= ite_tol {tol:g}"))
+                            break
+                except Exception as ex:  # noqa
+                    fails.append((case, f"fdae_solver: raised {type(ex).__name__}: {ex}"))
+    # steps larger than 1 (the Newton test must be on the step equation itself, not on a per-unit-time scaling of it)
+    daem, ym = dae_problem("mild")
+    for h in ([2.0] if tier == "quick" else [2.0, 4.0, 1.5]):
+        for tol in [1e-3, 3e-4, 1e-4, 3e-5, 1e-5, 1e-6]:
+            for name, solver in (("backward_euler", backward_euler), ("implicit_trapezoid", implicit_trapezoid)):
+                case = dict(solver=name, problem="mild", h=h, ite_tol=tol)
+                try:
+                    sol = quiet(solver, daem, [0.0, 20 * h], ym.copy(), Opt(step_size=h, ite_tol=tol))
+                except Exception as ex:  # noqa
+                    fails.append((case, f"{name}: raised {type(ex).__name__}: {ex}")); continue
+                T, Y = np.asarray(sol.T), np.asarray(sol.Y)
+                for k in range(len(T) - 1):
+                    nstepeq += 1
+                    if name == "backward_euler":
+                        r = (Y[k + 1] - Y[k]) - h * daem.F(T[k + 1], Y[k + 1], {})
+                    else:
+                        r = (Y[k + 1] - Y[k]) - h / 2 * (daem.F(T[k + 1], Y[k + 1], {}) + daem.F(T[k], Y[k], {}))
+                    if not np.max(np.abs(r)) < tol:
+                        fails.append((dict(case, step=k), f"{name}: step {k} (h = {h}) violates its discrete equation: residual {np.max(np.abs(r)):.3g} >= ite_tol {tol:g}"))
+                        break
     rep.cov["evaluations"] = len(lines) + nstepeq
     rep.cov["distinct_nontrivial"] = len(set(lines))
     rep.cov["rule"] = ("(t0, tend, h) triples: a fixed list (integral, non-representable 0.3/0.1, non-integral, negative t0, span < h, empty span, "
